@@ -1,7 +1,7 @@
 (* C13 -- data channel lifecycle: faithful open, forward-only states.
    Property theorems only; proofs in Proof/ChanDcepP.v, Proof/ChanP.v and Proof/ChanBufP.v. *)
 From Coq Require Import ZArith List Bool.
-From AV Require Import Lib.Bytes Gen.SctpConst Model.Chan Proof.ChanDcepP Proof.ChanP Proof.ChanBufP Proof.ChanOpenP Proof.ChanCloseP.
+From AV Require Import Lib.Bytes Gen.SctpConst Model.Chan Proof.ChanDcepP Proof.ChanP Proof.ChanBufP Proof.ChanOpenP Proof.ChanCloseP Proof.ChanNegP.
 Import ListNotations.
 Local Open Scope Z_scope.
 
@@ -151,6 +151,29 @@ Theorem C13_close_frees_id : forall s h i, cinv s -> (h < length (chans s))%nat 
   (forall neg ordered maxrt maxlt label proto, ~ In (EvRaise 1) (snd (create s3 neg (Some i) ordered maxrt maxlt label proto))).
 Proof. exact close_frees_id. Qed.
 Print Assumptions C13_close_frees_id.
+
+(* 9. Out-of-band negotiated channels pair up by id at each endpoint.  Creating a negotiated
+   channel with an unused id i registers it under i without queueing anything for the peer; it is
+   open at once (one `open` event) when the association is established, otherwise it stays
+   connecting and opens -- exactly one `open` event -- when the association becomes established;
+   a second channel with id i is refused (ValueError).  Both sides doing this with the same i
+   therefore end with an open channel registered under i on each side. *)
+Theorem C13_negotiated_create : forall s i ordered maxrt maxlt label proto, tget (table s) i = None ->
+  let h := length (chans s) in
+  let s' := fst (create s true (Some i) ordered maxrt maxlt label proto) in
+  let evs := snd (create s true (Some i) ordered maxrt maxlt label proto) in
+  tget (table s') i = Some h /\ ch_id (getc s' h) = Some i /\ ch_neg (getc s' h) = true /\ queue s' = queue s /\
+  (if established s then ch_state (getc s' h) = Open /\ evs = [EvOpen h]
+   else ch_state (getc s' h) = Connecting /\ evs = []) /\
+  (forall neg' o' r' l' lb' pr', snd (create s' neg' (Some i) o' r' l' lb' pr') = [EvRaise 1]).
+Proof. exact create_negotiated. Qed.
+Print Assumptions C13_negotiated_create.
+
+Theorem C13_negotiated_opens_when_established : forall s h i, cinv s -> (h < length (chans s))%nat ->
+  ch_neg (getc s h) = true -> ch_state (getc s h) = Connecting -> ch_id (getc s h) = Some i ->
+  ch_state (getc (fst (set_established s)) h) = Open /\ opens h (snd (set_established s)) = 1%nat.
+Proof. exact established_opens_negotiated. Qed.
+Print Assumptions C13_negotiated_opens_when_established.
 
 (* PARTIAL (not theorems; observed by the correspondence and the two-endpoint oracle): that
    the OPEN actually reaches the peer exactly once is C01's ordered exactly-once delivery on
